@@ -24,6 +24,11 @@ FRAG = ["http://", "a.b", "www.", "&", " ", "javascript://", '"', "<", "(", ")",
 PROTOS = [["http", "https"], ["http"], ["ftp", "javascript"], []]
 
 
+def _unesc(t):
+    return (t.replace("&lt;", "<").replace("&gt;", ">").replace("&quot;", '"').replace("&#x27;", "'")
+            .replace("&amp;", "&"))
+
+
 def _check(text, out, shorten, require_protocol, permitted, allow_split=False):
     esc = ref_escape(text)
     rest = []           # output with tags removed and labels replaced by their URL
@@ -74,6 +79,11 @@ def _check(text, out, shorten, require_protocol, permitted, allow_split=False):
             assert label.endswith("...") and url.startswith(label[:-3]) and len(label) < len(url), \
                 "label %r is not a proper prefix of %r + '...'" % (label, url)
             pre = label[:-3]
+            # character by character on the entity-unescaped text: label minus '...' is a prefix of the URL
+            upre, uurl = _unesc(pre), _unesc(url)
+            assert len(upre) <= len(uurl), "label %r longer than its URL %r" % (label, url)
+            for q in range(len(upre)):
+                assert upre[q] == uurl[q], "label %r is not a prefix of its URL %r (differs at %d)" % (label, url, q)
             amp = pre.rfind("&")
             if not allow_split:      # allow_split only when the recorded known finding is excluded
                 assert amp < 0 or ";" in pre[amp:], "label %r ends inside a character entity" % (label,)
@@ -172,35 +182,49 @@ def classify_clip(proto: int, host: int, path: int, special: int, tail: int):
     return "shorten_splits_entity"
 
 
+SCHEMES = ["http://", "www.", "https://", "http:/", "http:///", "https:/", "ftp://", "HTTP://"]
+SPECIALS = ["&", '"', "q"]
+CLIP_PERMITTED = ["http", "https", "ftp", "HTTP"]
+
+
 def pre_clip(proto: int, host: int, path: int, special: int, tail: int) -> bool:
-    if not (0 <= proto <= 2 and 0 <= special <= 1 and P.H0 <= host <= P.H1 and -1 <= path <= 8
-            and P.T0 <= tail <= P.T1):
+    if not (0 <= proto < len(SCHEMES) and 0 <= special < len(SPECIALS) and P.H0 <= host <= P.H1
+            and -1 <= path <= 8 and P.T0 <= tail <= P.T1):
         return False
-    return in_shard(proto * 2 + special)
+    return in_shard(proto * 3 + special)
 
 
 @harness(pre=pre_clip, quick=dict(H0=8, H1=22, T0=29, T1=29, timeout=150),
          thorough=dict(H0=0, H1=40, T0=0, T1=40, timeout=1400),
-         nshards=dict(quick=6, thorough=6), classify=classify_clip, reach=["clipped_before_entity"],
+         nshards=dict(quick=24, thorough=24), classify=classify_clip,
+         reach=["clipped_before_entity", "single_slash_scheme_shortened", "uppercase_scheme_shortened"],
          units=["escape.linkify", "escape.linkify.make_link"],
-         stubs=["shorten=True; text = PROTO + 'h' * host + ('/' + 'p' * path if path >= 0) + SPECIAL + 't' * tail "
-                "with PROTO in ('http://', 'www.', 'https://'), SPECIAL in ('&', '\"'); host (H0..H1), path "
-                "(-1..8) and tail (T0..T1) are symbolic lengths (realised by the string multiplication: every "
-                "value forked); quick places the special on every offset 12..39 of the URL"],
+         stubs=["shorten=True, permitted_protocols=%r; text = SCHEME + 'h' * host + ('/' + 'p' * path if path >= 0) "
+                "+ SPECIAL + 't' * tail with SCHEME in %r (one, two and three slashes, upper case, ftp, www.), "
+                "SPECIAL in %r; host (H0..H1), path (-1..8) and tail (T0..T1) are symbolic lengths (realised by "
+                "the string multiplication: every value forked); quick places the special on every offset "
+                "around both clipping rules" % (CLIP_PERMITTED, SCHEMES, SPECIALS)],
          outside=["more than one special character", "extra_params"])
 def h_clip(proto: int, host: int, path: int, special: int, tail: int):
-    """no character entity is split by the shortening, wherever the entity falls."""
-    text = (("http://", "www.", "https://")[proto] + "h" * host + ("/" + "p" * path if path >= 0 else "")
-            + ("&", '"')[special] + "t" * tail)
-    out = escape.linkify(text, shorten=True)
+    """shortened labels are character-by-character prefixes of their URL + '...' for every scheme
+    separator the URL regex accepts, and no character entity is split wherever it falls."""
+    text = (SCHEMES[proto] + "h" * host + ("/" + "p" * path if path >= 0 else "")
+            + SPECIALS[special] + "t" * tail)
+    out = escape.linkify(text, shorten=True, permitted_protocols=CLIP_PERMITTED)
     # with the known finding "shorten_splits_entity" recorded (P.exclude) everything but the split is checked
-    n = _check(text, out, True, False, ["http", "https"],
+    n = _check(text, out, True, False, CLIP_PERMITTED,
                allow_split=bool(P.exclude) and "shorten_splits_entity" in P.exclude)
-    if "...</a>" in out and "&" not in out.split(">")[1]:
-        reached("clipped_before_entity")
+    if "...</a>" in out:
+        if special < 2 and "&" not in out.split(">")[1]:
+            reached("clipped_before_entity")
+        if proto == 3 or proto == 5:
+            reached("single_slash_scheme_shortened")
+        if proto == 7:
+            reached("uppercase_scheme_shortened")
 
 
-SHORT = ["http://", "www.", "x" * 31, "/", "y" * 9, ".h?k", "&", "a.b", "z" * 12, "https://", "?", "&amp;"]
+SHORT = ["http://", "www.", "x" * 31, "/", "y" * 9, ".h?k", "&", "a.b", "z" * 12, "https://", "?", "&amp;",
+         "http:/", "ftp://", "HTTP://", "https:/"]
 
 
 def pre_short(idx: List[int], rp: bool) -> bool:
@@ -215,13 +239,13 @@ def pre_short(idx: List[int], rp: bool) -> bool:
 @harness(pre=pre_short, quick=dict(N=4, NF=7, timeout=120), thorough=dict(N=5, NF=len(SHORT), timeout=1400),
          nshards=dict(quick=4, thorough=12), reach=["shortened"],
          units=["escape.linkify", "escape.linkify.make_link"],
-         stubs=["shorten=True; text = 'http://' or 'www.' start is not forced: <= N fragments from %r" % (SHORT,)],
+         stubs=["shorten=True, permitted_protocols=%r; <= N fragments from %r (first NF in quick)" % (CLIP_PERMITTED, SHORT)],
          outside=["extra_params"])
 def h_shorten(idx: List[int], rp: bool):
     """shortening heuristics: labels are URL prefixes + '...', entities never split."""
     text = "".join([SHORT[i] for i in idx])
-    out = escape.linkify(text, shorten=True, require_protocol=rp)
-    n = _check(text, out, True, rp, ["http", "https"])
+    out = escape.linkify(text, shorten=True, require_protocol=rp, permitted_protocols=CLIP_PERMITTED)
+    n = _check(text, out, True, rp, CLIP_PERMITTED)
     if "...</a>" in out:
         reached("shortened")
 
